@@ -542,7 +542,48 @@ func (em *emitter) pointerOfArray(expr ast.Expression) (ast.Expression, bool) {
 			return op.Expr, true
 		}
 	}
+	if em.typ(expr).Kind() == reflect.Array {
+		return em.addressOfNonLocal(expr)
+	}
 	return nil, false
+}
+
+// addressOfNonLocal returns the expression &expr if expr is a variable of
+// struct or array type that is not local to the function: a package-level
+// variable or a variable of an enclosing function. As reading such a variable
+// copies it, its fields and elements are reached through its address when they
+// are assigned, addressed, sliced or are the operand of another selector or
+// index expression.
+func (em *emitter) addressOfNonLocal(expr ast.Expression) (ast.Expression, bool) {
+	switch e := expr.(type) {
+	case *ast.Identifier:
+		if em.fb.declaredInFunc(e.Name) {
+			return nil, false
+		}
+	case *ast.Selector:
+	default:
+		return nil, false
+	}
+	ti := em.typeInfos[expr]
+	if ti == nil || ti.Type == nil {
+		return nil, false
+	}
+	if k := ti.Type.Kind(); k != reflect.Struct && k != reflect.Array {
+		return nil, false
+	}
+	if _, ok := em.varStore.nonLocalVarIndex(expr); !ok {
+		return nil, false
+	}
+	if ptr, ok := em.nonLocalAddresses[expr]; ok {
+		return ptr, true
+	}
+	ptr := ast.NewUnaryOperator(expr.Pos(), ast.OperatorAddress, expr)
+	em.typeInfos[ptr] = &typeInfo{Type: em.types.PointerTo(ti.Type)}
+	if em.nonLocalAddresses == nil {
+		em.nonLocalAddresses = map[ast.Expression]ast.Expression{}
+	}
+	em.nonLocalAddresses[expr] = ptr
+	return ptr, true
 }
 
 // emitZeroValue emits the zero value of typ into the register reg.
